@@ -295,7 +295,7 @@ fn links(ctx: &Ctx) {
             _ => tm_cel(0, 1, 0, 200, 2, 2, vec![1, 2, 3, 0]),
         };
         f.frames[*dst as usize].push(real);
-        f.frames[*src as usize].push(link_cel(0, -5, 9, 77, *dst));
+        f.frames[*src as usize].push(link_cel(0, -5, 9, [77u8, 0, 255][*src as usize % 3], *dst));
         for k in 0..*nf {
             f.frames[k as usize].push(raw_cel(1, 0, 0, 255, CW, CH, pixels(&fmt, CW as usize, CH as usize, 20 + k as u32, (0, 0))));
         }
